@@ -40,6 +40,19 @@ def I(n):
     return z3.IntVal(n)
 
 
+def _has_ite(t):
+    stack, seen = [t], set()
+    while stack:
+        x = stack.pop()
+        if x.get_id() in seen:
+            continue
+        seen.add(x.get_id())
+        if z3.is_app(x) and x.decl().kind() == z3.Z3_OP_ITE:
+            return True
+        stack.extend(x.children())
+    return False
+
+
 def _has_quant_term(t):
     stack, seen = [t], set()
     while stack:
@@ -1143,7 +1156,7 @@ class Evaluator:
         for fact in self.path.axioms[n_ax:]:
             used = [b for b in bound if _mentions(fact, b)]
             trig = self.path.triggers.get(fact.get_id())
-            if used and trig is not None and all(_mentions(trig, b) for b in used):
+            if used and trig is not None and not _has_ite(trig) and all(_mentions(trig, b) for b in used):
                 try:
                     self.path.axioms.append(z3.ForAll(used, fact, patterns=[trig]))
                 except z3.Z3Exception:
@@ -1226,12 +1239,30 @@ class Evaluator:
             old = self.old_heap or {}
             cur = self.path.heap
             # every location of every object that existed at entry is unchanged (fresh objects are free)
+            # optional arguments relax it: field names that may change; "lists-grow": lists may be appended to (the old
+            # elements stay where they were)
+            relax = set()
+            for a in args:
+                if isinstance(a, VStr) and z3.is_string_value(a.t):
+                    relax.add(a.t.as_string())
+                else:
+                    self.oos(node, "heap_unchanged() argument")
             r = z3.Const("r!hu", z3.IntSort())
+            j = z3.Const("j!hu", z3.IntSort())
             eqs = []
+            a0 = self.path.alloc0
             for f in cur:
-                if f in old and f != "$alloc" and not z3.eq(cur[f], old[f]):
-                    eqs.append(z3.ForAll([r], z3.Implies(z3.And(r >= 0, r < self.path.alloc0), cur[f][r] == old[f][r]),
-                                         patterns=[cur[f][r]]))
+                if f in old and f != "$alloc" and not z3.eq(cur[f], old[f]) and f not in relax:
+                    cf = cur[f]
+                    if _has_ite(cf):
+                        cf = self.heap.patternable(cf)  # a term with ite cannot serve as a pattern
+                    if "lists-grow" in relax and f == "$len":
+                        eqs.append(z3.ForAll([r], z3.Implies(z3.And(r >= 0, r < a0), cf[r] >= old[f][r]), patterns=[cf[r]]))
+                    elif "lists-grow" in relax and f == "$elem":
+                        eqs.append(z3.ForAll([r, j], z3.Implies(z3.And(r >= 0, r < a0, j >= 0, j < old["$len"][r]), cf[r][j] == old[f][r][j]),
+                                             patterns=[cf[r][j]]))
+                    else:
+                        eqs.append(z3.ForAll([r], z3.Implies(z3.And(r >= 0, r < a0), cf[r] == old[f][r]), patterns=[cf[r]]))
             return VBool(z3.And(*eqs) if eqs else z3.BoolVal(True))
         if name == "implies":
             return VBool(z3.Implies(self.truth(args[0]), self.truth(args[1])))
